@@ -527,6 +527,9 @@ func (ex *Exec) goFromVal(f *pbFieldInfo, v *PRVal) Value {
 	}
 	t := v.T
 	want := kindSort(f.Kind)
+	if isIntF(t) && want.K == smt.KFP {
+		return t
+	}
 	if t.Sort != want {
 		switch {
 		case t.Sort.K == smt.KBV && want.K == smt.KBV && want.W < t.Sort.W:
@@ -747,6 +750,12 @@ func (ex *Exec) pbMerge(dst, src *PRMsg) {
 		case valKind(f.Kind) == "message":
 			sp, _ := src.slot(f).V.(Ptr)
 			if sp.L == nil {
+				continue
+			}
+			if dp, _ := dst.slot(f).V.(Ptr); dp.L == nil {
+				// absent in dst: the merged result is a clone (keeps the exact-nanosecond ghost of Duration/Timestamp)
+				c := ex.pbCloneMsg(&PRMsg{L: sp.L, Info: ex.infoOfPtrT(f.MsgT)})
+				ex.store(dst.slot(f), Ptr{c.L})
 				continue
 			}
 			dv := ex.pbMutable(dst, f)
